@@ -14,7 +14,7 @@ import (
 
 var (
 	emailRegexpString     = "([a-zA-Z0-9_.+-]+@([a-zA-Z0-9][a-zA-Z0-9-]*[a-zA-Z0-9]*\\.)+[a-zA-Z]{2,})"
-	timestampRegexpString = "([1-9][0-9]* [+-][0-9]{4})"
+	timestampRegexpString = "([0-9]+ [+-][0-9]{4})"
 	signRegexp            = regexp.MustCompile("^[^<]* <" + emailRegexpString + "> " + timestampRegexpString + "$")
 )
 
@@ -27,14 +27,15 @@ type Sign struct {
 func (s Sign) String() string {
 	unixTime := s.Timestamp.Unix()
 	_, offsetSec := s.Timestamp.Zone()
-	offsetHour := offsetSec / 3600
-	offsetMinute := (offsetSec / 60) % 60
 	var posNegSign string
 	if offsetSec >= 0 {
 		posNegSign = "+"
 	} else {
 		posNegSign = "-"
+		offsetSec = -offsetSec
 	}
+	offsetHour := offsetSec / 3600
+	offsetMinute := (offsetSec / 60) % 60
 	offset := fmt.Sprintf("%s%02d%02d", posNegSign, offsetHour, offsetMinute)
 	return fmt.Sprintf("%s <%s> %s %s", s.Name, s.Email, fmt.Sprint(unixTime), offset)
 }
@@ -158,7 +159,11 @@ func readSign(signString string) (Sign, error) {
 			return Sign{}, fmt.Errorf("%w: %s", ErrInvalidCommitObject, err)
 		}
 	}
-	location := time.FixedZone(" ", 3600*offsetHour+60*offsetMinute)
+	offsetSec := 3600*offsetHour + 60*offsetMinute
+	if offsetString[:1] == "-" {
+		offsetSec = -offsetSec
+	}
+	location := time.FixedZone(" ", offsetSec)
 	timestamp := time.Unix(unixTime, 0).In(location)
 	sign := Sign{
 		Name:      name,
